@@ -7,6 +7,8 @@ import (
 	"crypto/ed25519"
 	"crypto/rand"
 	"crypto/rsa"
+	"crypto/sha256"
+	"encoding/base64"
 	"encoding/json"
 	"encoding/pem"
 	"errors"
@@ -95,6 +97,19 @@ func mkMaterial(typ string, rng *mrand.Rand) *material {
 	}
 	x, _ := age.GenerateX25519Identity()
 	m.rcp["X"] = x.Recipient()
+	// "T": a stanza of the other SSH key type carrying D's public-key tag (type and tag together address a stanza)
+	h := sha256.Sum256(m.pub["D"].Marshal())
+	tag := base64.RawStdEncoding.EncodeToString(h[:4])
+	if typ == "ed25519" {
+		body := make([]byte, 256)
+		rng.Read(body)
+		m.rcp["T"] = forged{&age.Stanza{Type: "ssh-rsa", Args: []string{tag}, Body: body}}
+	} else {
+		share, body := make([]byte, 32), make([]byte, 32)
+		rng.Read(share)
+		rng.Read(body)
+		m.rcp["T"] = forged{&age.Stanza{Type: "ssh-ed25519", Args: []string{tag, base64.RawStdEncoding.EncodeToString(share)}, Body: body}}
+	}
 	return m
 }
 
@@ -193,8 +208,8 @@ func Run(tier string) {
 			if run.Thorough() {
 				files = "FilesFull"
 			}
-			if typ == "ed25519" {
-				files = "FilesFull"
+			if typ == "ed25519" && !run.Thorough() {
+				files = "FilesMid"
 			}
 			cfg := fmt.Sprintf("SPECIFICATION Spec\nCONSTANTS\n Stored = \"%s\"\n Files <- %s\n MaxCalls = %d\n CacheBeforeValidate = FALSE\nINVARIANTS PromptOnlyOnMatch PromptWhenAddressed CacheOnlyValidated HistoryFree Emit\nCHECK_DEADLOCK FALSE\n", stored, files, maxCalls)
 			res := run.TLC("histories-"+typ+"-"+stored, vk.TLCOpts{Module: "SSHEncMC", Config: cfg, Workers: 8})
@@ -331,3 +346,8 @@ func OpensWhenAddressed(run *vk.Run) {
 		}
 	}
 }
+
+// forged is a recipient that puts a prepared stanza into the header.
+type forged struct{ s *age.Stanza }
+
+func (f forged) Wrap(fileKey []byte) ([]*age.Stanza, error) { return []*age.Stanza{f.s}, nil }
